@@ -1,5 +1,7 @@
 (* C18 — scalar encodings and helper conversions are exact inverses over their domain. *)
-From PyUbx Require Import Base Bytes PyFloat Types Strs Fletcher Helpers Consts Bytes_lemmas Fletcher_lemmas Codec_lemmas Helper_lemmas R4_lemmas.
+From PyUbx Require Import Base Bytes PyFloat Types Strs Fletcher Helpers Consts Bytes_lemmas Fletcher_lemmas Codec_lemmas Helper_lemmas R4_lemmas Scaled_bound Sphp_lemmas.
+From Coq Require Import Reals.
+From Flocq Require Import Core.Core.
 Open Scope Z_scope.
 
 (* integer types E, I, L, U of EVERY width (not only those in ubxtypes_core): every in-range value
@@ -96,3 +98,16 @@ Print Assumptions C18_att2idx.
 Example C18_att2idx_example : att2idx "gsid_03_104" = IdxMany [3; 104]%N /\ att2name "gsid_03_104" = "gsid"%string.
 Proof. split; vm_compute; reflexivity. Qed.
 
+(* val2sphp(val, scale) = (sp, hp): for every finite val and non-zero finite scale whose quotient fits 53 bits, sp is
+   the truncated (correctly rounded) quotient, sp + hp/100 reproduces the quotient to within half a high-precision
+   unit (0.005, plus 1e-12 of rounding noise), and |hp| <= 100.  Flocq; axioms: the four real-number axioms. *)
+Theorem C18_val2sphp : forall v sc sp hp,
+  fin v -> fin sc -> val2sphp v sc = Ok (sp, hp) -> Z.abs sp < 2 ^ 53 ->
+  exists q, fdiv v sc = Ok q /\ sp = Ztrunc (R_of q) /\
+            (Rabs (R_of q - IZR sp - IZR hp / 100) <= 5 / 1000 + / 1000000000000)%R /\ Z.abs hp <= 100.
+Proof. exact val2sphp_consistent. Qed.
+Print Assumptions C18_val2sphp.
+
+Example C18_val2sphp_example :   (* 48.123456789 / 1e-7 -> (481234567, 89) *)
+  val2sphp (b64_of_bits 4631969591748959410) (b64_of_bits 4502148214488346440) = Ok (481234567, 89).
+Proof. vm_compute. reflexivity. Qed.
